@@ -282,40 +282,57 @@ func (r *runner) execCase(ops []string) (out []string, err error) {
 	tm.Alert.RegisterAnonHandler(topic, rec)
 	script, tt := c.script(topic)
 
+	// Every run of the task gets its own child TaskMaster sharing the services (alert service, UDF sink) of the
+	// backbone, exactly as kapacitor does for a replay: Drain() ends a TaskMaster's life, and it is the only public
+	// way to know that everything written has been routed.
 	var sinkKeys []string
 	gen := 0
 	var et *kapacitor.ExecutingTask
+	var child *kapacitor.TaskMaster
 	var taskID string
 	start := func() error {
 		gen++
 		taskID = fmt.Sprintf("c%dg%d", r.caseNo, gen)
-		task, err := tm.TM.NewTask(taskID, script, tt, dbrps, 0, nil)
+		child = tm.TM.New("tm-" + taskID)
+		if err := child.Open(); err != nil {
+			return err
+		}
+		task, err := child.NewTask(taskID, script, tt, dbrps, 0, nil)
 		if err != nil {
+			child.Close()
 			return fmt.Errorf("NewTask: %v\n%s", err, script)
 		}
-		et, err = tm.TM.StartTask(task)
+		et, err = child.StartTask(task)
 		if err != nil {
+			child.Close()
 			return fmt.Errorf("StartTask: %v", err)
 		}
 		return nil
 	}
 	stop := func() error {
 		if tt == kapacitor.BatchTask {
-			for _, bc := range tm.TM.BatchCollectors(taskID) {
+			for _, bc := range child.BatchCollectors(taskID) {
 				bc.Close()
 			}
 		} else {
 			// closes the task's fork edge after everything written so far has been routed
-			tm.TM.Drain()
+			child.Drain()
 		}
 		werr := et.Wait()
-		tm.TM.DeleteTask(taskID)
+		child.DeleteTask(taskID)
+		child.Close()
 		for _, k := range tm.Rec.Keys() {
 			if strings.HasPrefix(k, taskID+"/") {
 				sinkKeys = append(sinkKeys, k)
 			}
 		}
 		return werr
+	}
+	fail := func(err error) ([]string, error) {
+		stop()
+		tm.Alert.DeregisterAnonHandler(topic, rec)
+		tm.Alert.DeleteTopic(topic)
+		return nil, err
 	}
 	if err := start(); err != nil {
 		return nil, err
@@ -324,7 +341,7 @@ func (r *runner) execCase(ops []string) (out []string, err error) {
 		switch t[0] {
 		case "p", "v": // p <gid> <t> <vec>   |   v <gid> <t> <value>
 			if tt != kapacitor.StreamTask {
-				return nil, fmt.Errorf("point op in a batch case")
+				return fail(fmt.Errorf("point op in a batch case"))
 			}
 			gid, _ := kit.Unesc(t[1])
 			ts, _ := strconv.ParseInt(t[2], 10, 64)
@@ -333,18 +350,18 @@ func (r *runner) execCase(ops []string) (out []string, err error) {
 				v, _ := strconv.ParseInt(t[3], 10, 64)
 				f = models.Fields{"value": v}
 			} else if f, err = fieldsOf(t[3]); err != nil {
-				return nil, err
+				return fail(err)
 			}
 			pt, err := imodels.NewPoint("m", imodels.NewTags(map[string]string{"host": gid}), imodels.Fields(f), time.Unix(0, ts).UTC())
 			if err != nil {
-				return nil, err
+				return fail(err)
 			}
-			if err := tm.TM.WritePoints("db", "rp", imodels.ConsistencyLevelAll, []imodels.Point{pt}); err != nil {
-				return nil, err
+			if err := child.WritePoints("db", "rp", imodels.ConsistencyLevelAll, []imodels.Point{pt}); err != nil {
+				return fail(err)
 			}
 		case "b": // b <gid> <tmax> <t:vec,t:vec|->
 			if tt != kapacitor.BatchTask {
-				return nil, fmt.Errorf("batch op in a stream case")
+				return fail(fmt.Errorf("batch op in a stream case"))
 			}
 			gid, _ := kit.Unesc(t[1])
 			tmax, _ := strconv.ParseInt(t[2], 10, 64)
@@ -353,32 +370,32 @@ func (r *runner) execCase(ops []string) (out []string, err error) {
 				for _, ps := range strings.Split(t[3], ",") {
 					i := strings.IndexByte(ps, ':')
 					if i < 0 {
-						return nil, fmt.Errorf("bad batch point %q", ps)
+						return fail(fmt.Errorf("bad batch point %q", ps))
 					}
 					ts, _ := strconv.ParseInt(ps[:i], 10, 64)
 					f, err := fieldsOf(ps[i+1:])
 					if err != nil {
-						return nil, err
+						return fail(err)
 					}
 					pts = append(pts, edge.NewBatchPointMessage(f, models.Tags{"host": gid}, time.Unix(0, ts).UTC()))
 				}
 			}
 			begin := edge.NewBeginBatchMessage("m", models.Tags{"host": gid}, false, time.Unix(0, tmax).UTC(), len(pts))
 			bb := edge.NewBufferedBatchMessage(begin, pts, edge.NewEndBatchMessage())
-			cs := tm.TM.BatchCollectors(taskID)
+			cs := child.BatchCollectors(taskID)
 			if len(cs) != 1 {
-				return nil, fmt.Errorf("expected one batch collector, got %d", len(cs))
+				return fail(fmt.Errorf("expected one batch collector, got %d", len(cs)))
 			}
 			if err := cs[0].CollectBatch(bb); err != nil {
-				return nil, err
+				return fail(err)
 			}
 		case "restart":
 			// stop the task (all input processed) and start it again: per-ID state is restored from the topic
 			if err := stop(); err != nil {
-				return nil, fmt.Errorf("task failed: %v", err)
+				return fail(fmt.Errorf("task failed: %v", err))
 			}
 			if err := start(); err != nil {
-				return nil, err
+				return fail(err)
 			}
 		}
 	}
